@@ -482,7 +482,14 @@ def Data.at : Data → Path → Option Data
     | none => none
   | _, _ => none
 
-/-- The null/error correspondence over a whole response. PROVED in `Props/C04_nulls.lean` (`null_error_bijection`):
+/-- The null/error correspondence over a whole response - ONE DIRECTION ONLY (audit C04-F3: the name says more than the
+    statement; kept because evidence and DESIGN refer to it; `errors_at_or_below_nulls` is the same theorem under an
+    honest name). Stated: error paths are pairwise distinct, and every error lies at or below an error whose path holds
+    `null`. NOT stated globally: every `null` caused by a resolver error / a non-null violation has exactly one error with
+    that path - only the one-step lemmas `resolver_error_null_one_error`, `nonnull_violation_null_one_error`,
+    `completion_error_is_field_error` (about `resolveField` / `completeValue` in isolation) say so; a global converse
+    needs a `NullSite` predicate over (document, world) and an induction over `executeFields` (open).
+    PROVED in `Props/C04_nulls.lean` (`null_error_bijection`):
     no two errors share a path, and every error sits AT or BELOW an error whose path is a position of the data holding
     `null`. "Below" happens exactly when a `ResolverError` interrupts the completion of a field value (7b8e151): the
     field becomes `null` and the errors already recorded for the items completed before stay in the response. -/
@@ -551,7 +558,10 @@ theorem exec_pure (s : SchemaD) (history : List String) (abstract obj : String) 
   · have : (kindOf s obj == some Kind.object) = false := by simpa using hk
     simp [this]
 
-/-- the request-level model literally has no other input -/
+/-- the request-level model literally has no other input. TRUE BY CONSTRUCTION (`subst; rfl`, congruence of a function):
+    the statement records that `execute` takes no hidden parameter, it has no further content. What ties "the response is
+    a function of (schema, document, variables, world)" to the code is the correspondence (same request repeated, history
+    streams of `corr/C04.py`), not this theorem. -/
 theorem exec_deterministic (s : SchemaD) (doc : Doc) (vars : Vars) (w w' : World) (op : Option String) (f c : Nat)
     (hw : w = w') : execute s doc vars w op f c = execute s doc vars w' op f c := by subst hw; rfl
 
